@@ -62,8 +62,20 @@ theorem countP_le_one_unique {α} {p : α → Bool} {l : List α} (hc : l.countP
 /-- thread is at `pubStoreCtl` -/
 def atStore (l : Local) : Bool := match l.pc with | .pubStoreCtl => true | _ => false
 
-/-- thread is outside the machinery or about to attempt an entry CAS -/
-def quiet (l : Local) : Bool := match l.pc with | .idle | .casInit _ | .casJoin _ => true | _ => false
+/-- thread is outside the machinery, on one of the two join paths (`help_transfer` / `add_count`,
+not admitted yet) or about to attempt an entry CAS -/
+def quiet (l : Local) : Bool :=
+  match l.pc with
+  | .idle | .casInit _ | .casJoin _ | .helpCheckNext | .helpCheckTable | .helpLoadSc
+  | .helpLoadIndex _ | .acLoadTable _ | .acLoadNext _ | .acLoadIndex _ => true
+  | _ => false
+
+/-- thread is on one of the two join paths, before its CAS -/
+def joining (l : Local) : Bool :=
+  match l.pc with
+  | .helpCheckNext | .helpCheckTable | .helpLoadSc | .helpLoadIndex _ | .acLoadTable _
+  | .acLoadNext _ | .acLoadIndex _ => true
+  | _ => false
 
 def P (s : State) : Nat := s.threads.countP participating
 def F (s : State) : Nat := s.threads.countP isFinisher
@@ -106,12 +118,28 @@ theorem not_both (l : Local) (hp : participating l = true) : isFinisher l = fals
 def MovedFrom (s : State) (lo : Int) : Prop :=
   ∀ idx : Nat, lo ≤ (idx : Int) → idx < s.n → s.moved.getD idx false = true
 
+/-- what a thread knows about the word `sc` it is going to CAS on (`casJoin sc`), once it has seen
+a next table and loaded `transfer_index`: the word is not younger than the table the thread holds,
+and if it is a "finishing" word (`cnt = 1`; only `add_count` can carry one this far, having loaded
+the table of a *later* generation) it is not the current word any more – the CAS will fail -/
+def JoinOk (s : State) (l : Local) (sc : SC) : Prop :=
+  l.finishing = false ∧ ∃ g c, sc = .resizing g c ∧ g ≤ l.heldGen ∧
+    (c = 1 → g < l.heldGen ∧ s.sizeCtl ≠ .resizing g 1)
+
 /-- thread-local part of the invariant -/
 def LocalOk (s : State) (l : Local) : Prop :=
   match l.pc with
   | .idle => l.finishing = false
   | .casInit sc => l.finishing = false ∧ ∃ thr, sc = .idle thr
-  | .casJoin sc => l.finishing = false ∧ ∃ g c, sc = .resizing g c ∧ c ≠ 1
+  | .helpCheckNext => l.finishing = false
+  | .helpCheckTable => l.finishing = false
+  | .helpLoadSc => l.finishing = false
+  | .helpLoadIndex sc => JoinOk s l sc
+  | .acLoadTable sc => l.finishing = false ∧ ∃ g c, sc = .resizing g c ∧ g ≤ s.gen
+  | .acLoadNext sc => l.finishing = false ∧ ∃ g c, sc = .resizing g c ∧ g ≤ l.heldGen ∧
+      (c = 1 → g < l.heldGen)
+  | .acLoadIndex sc => JoinOk s l sc
+  | .casJoin sc => JoinOk s l sc
   | .swapNext => l.finishing = false
   | .storeIndex => l.finishing = false
   | .claimCas ni => l.finishing = false ∧ l.i < l.bound ∧ 0 < ni
@@ -136,5 +164,11 @@ structure Inv (n0 nthreads stride : Nat) (s : State) : Prop where
   gen_eq : ∀ g c, s.sizeCtl = .resizing g c → g + S s = s.gen
   idle_thr : ∀ thr, s.sizeCtl = .idle thr → thr = threshold s.n ∧ s.nextTable = false
   locals : ∀ (t : Nat) (l : Local), s.threads[t]? = some l → LocalOk s l
+  /-- the generation comparison of `help_transfer` is in place -/
+  check_eq : s.checkGen = true
+  /-- nobody has been admitted to a resize while holding the tables of another generation -/
+  stale_eq : s.staleJoins = 0
+  /-- a held table is never younger than the current one -/
+  held_le : ∀ (t : Nat) (l : Local), s.threads[t]? = some l → l.heldGen ≤ s.gen
 
 end Flurry.Proto.Resize
